@@ -139,7 +139,10 @@ async def start_driver(world):
     cc = w.cloud_classes = getattr(w, 'cloud_classes', None) or build_cloud_classes(m)
     if getattr(w, 'cloud', None) is None:
         w.cloud = SimCloud(w)
-    ctx = w._in_proc('driver')
+    # each incarnation of the driver is its own simulated process (a crashed incarnation never runs again)
+    w.driver_gen = getattr(w, 'driver_gen', 0) + 1
+    w.driver_proc = 'driver' if w.driver_gen == 1 else f'driver#{w.driver_gen}'
+    ctx = w._in_proc(w.driver_proc)
     svc = w.net.services.get('batch-driver') or Service('batch-driver', 'driver')
     svc.context = ctx
     w.net.add_service('batch-driver', svc)
@@ -196,3 +199,47 @@ async def start_driver(world):
         svc.handler = aiohttp_app_handler(app)
         svc.up = True
     await asyncio.get_running_loop().create_task(boot(), context=ctx.copy())
+
+
+def crash_driver(world):
+    """the driver process dies at this instant: none of its tasks or handlers ever runs again (no except / finally),
+    the connections it was serving are reset, its database connections are reset by the server (open transactions
+    roll back, locks are released) and everything it held in memory is gone.  Only the database, the blob store, the
+    cloud and the workers survive."""
+    w = world
+    loop = asyncio.get_running_loop()
+    svc = w.net.services.get('batch-driver')
+    loop.crash(w.driver_proc)
+    if svc is not None:
+        svc.crash()
+    n = w.server.kill_proc(w.driver_proc)
+    w.driver_app = None
+    w.ctx.fault('crash.driver')
+    w.ctx.log.add('world', 'driver_crashed', w.driver_gen, n)
+
+
+async def restart_driver(world):
+    """a new driver process boots from the database (as the deployment's restart does).  A boot that fails -- e.g. a
+    database error while the start-up queries run -- kills that incarnation and the next one is started (the
+    orchestrator's restart loop)."""
+    w = world
+    loop = asyncio.get_running_loop()
+    for _ in range(60):
+        try:
+            await start_driver(w)
+            break
+        except asyncio.CancelledError:
+            raise
+        except Exception:  # pylint: disable=broad-except
+            loop.crash(w.driver_proc)
+            svc = w.net.services.get('batch-driver')
+            if svc is not None:
+                svc.crash()
+            w.server.kill_proc(w.driver_proc)
+            w.driver_app = None
+            w.ctx.probe('driver_boot_failed')
+            w.ctx.log.add('world', 'driver_boot_failed', w.driver_gen)
+            await asyncio.sleep(2)
+    else:
+        raise RuntimeError('the driver did not come up after 60 attempts')
+    w.ctx.log.add('world', 'driver_restarted', w.driver_gen)
